@@ -71,7 +71,7 @@ func (r *Row) Add(c Cell) *Row {
 		// the row is already in a table: keep the table's column count in step
 		r.inTable.resizeColumnsAtLeast(column)
 	}
-	invokePropertyCallbacks(r.rowCellCallbacks, CB_AT_ADD, ptr, r.ErrorContainer)
+	invokePropertyCallbacks(r.rowCellCallbacks, CB_AT_ADD, ptr, r)
 	return r
 }
 
